@@ -41,13 +41,16 @@ func (fc *FuncCtx) bindResults(res ssa.Value, tvs []TV) {
 	if res == nil {
 		return
 	}
-	if ci, ok := res.(ssa.CallInstruction); ok && fc.top == nil && len(tvs) > 0 {
+	if ci, ok := res.(ssa.CallInstruction); ok && len(tvs) > 0 {
+		// calls made by an inlined helper are call sites of the function under verification as well (in
+		// execution order): extracting statements into a helper does not hide them from ret(...)
+		t := fc.topCtx()
 		key := fc.siteKey(ci.Common())
-		n := fc.callSites[key]
-		fc.callSites[key]++
-		fc.siteResults[fmt.Sprintf("%s#%d", key, n)] = tvs[0]
+		n := t.callSites[key]
+		t.callSites[key]++
+		t.siteResults[fmt.Sprintf("%s#%d", key, n)] = tvs[0]
 		for k, tv := range tvs {
-			fc.siteResults[fmt.Sprintf("%s#%d.%d", key, n, k)] = tv
+			t.siteResults[fmt.Sprintf("%s#%d.%d", key, n, k)] = tv
 		}
 	}
 	switch len(tvs) {
@@ -250,7 +253,12 @@ func (fc *FuncCtx) siteKey(c *ssa.CallCommon) string {
 // atAsserts checks the caller's `at call` / `at effect` assertions for this site.
 func (fc *FuncCtx) atAsserts(c *ssa.CallCommon, args []TV, st *State, reach string) (sets []int) {
 	t := fc.topCtx()
-	if t.con == nil || len(t.con.Ats) == 0 || fc.top != nil {
+	if t.con == nil || len(t.con.Ats) == 0 {
+		return nil
+	}
+	if fc.top != nil && fc.con != nil && fc.con.Inline {
+		// a function annotated `inline` is part of the verifier's vocabulary (accessors): its calls are not
+		// sites of the caller; an uncontracted helper, in contrast, is the caller's own code moved elsewhere
 		return nil
 	}
 	key := fc.siteKey(c)
@@ -293,7 +301,11 @@ func (fc *FuncCtx) atAsserts(c *ssa.CallCommon, args []TV, st *State, reach stri
 			continue
 		}
 		if env == nil {
-			vars := fc.namesAt(fc.curInstr)
+			vars := t.namesAt(t.curInstr)
+			if fc.top != nil {
+				// inside an inlined helper: the caller's names as they stand at its call to the helper; the
+				// helper's own locals are not part of the caller's contract vocabulary
+			}
 			all := args
 			if c.IsInvoke() {
 				all = append([]TV{fc.v(c.Value)}, args...)
